@@ -62,3 +62,33 @@ pub fn case_eco(rd: &mut Rd) -> R<String> {
     let _ = h.join();
     Ok(res.unwrap_or_else(|_| "PANIC".into()))
 }
+
+/// Family 53: timeout settings built by TimeoutSettings::new, then used by an HTTP-based query (Eco) against a
+/// loopback port nobody listens on: whatever the durations, the client must be built and the query must return.
+pub fn case_http_settings(rd: &mut Rd) -> R<String> {
+    let mut dur = |rd: &mut Rd| -> R<Option<Duration>> {
+        if rd.u8()? == 0 {
+            Ok(None)
+        } else {
+            let s = rd.u64()?;
+            let n = rd.u32()?;
+            Ok(Some(Duration::new(s, n.min(999_999_999))))
+        }
+    };
+    let read = dur(rd)?;
+    let write = dur(rd)?;
+    let connect = dur(rd)?;
+    let retries = rd.u64()? as usize;
+    let ts = match gamedig::protocols::types::TimeoutSettings::new(read, write, connect, retries) {
+        Ok(t) => t,
+        Err(e) => return Ok(format!("{};", show_err(&e))),
+    };
+    // a port that was just free: the connection is refused at once
+    let l = TcpListener::bind(SocketAddr::new(IpAddr::V4(Ipv4Addr::LOCALHOST), 0)).map_err(|_| ())?;
+    let port = l.local_addr().map_err(|_| ())?.port();
+    drop(l);
+    let ip = IpAddr::V4(Ipv4Addr::LOCALHOST);
+    let res: Result<String, ()> =
+        catch_unwind(AssertUnwindSafe(|| show_res(&gamedig::games::eco::query_with_timeout(&ip, Some(port), &Some(ts)), |r| canon(r)))).map_err(|_| ());
+    Ok(format!("Ok(settings);{}", res.unwrap_or_else(|_| "PANIC".into())))
+}
